@@ -107,6 +107,8 @@ def gen_fa(rng, kind=None, max_states=5, max_symbols=3, max_trans=9, plain_symbo
         case["ghost_trans"] = ghosts
         if rng.chance(0.4):
             case["ghost_final"] = rng.pick(states)
+        if rng.chance(0.4) and kind != "dfa":
+            case["ghost_start"] = rng.pick(states)
     return case
 
 
@@ -191,7 +193,18 @@ def ref_of(case):
                 alpha.add(ykey(case, a))
     if case.get("ghost_final") is not None:
         st.add(skey(case, case["ghost_final"]))
+    if _ghost_start(case) is not None:
+        st.add(skey(case, case["ghost_start"]))
     return Nfa(st, alpha, tr, starts, finals)
+
+
+def _ghost_start(case):
+    """a start mark that is set and removed again (remove_start_state); not on a DFA, where add_start_state
+    replaces the start state, and not on the ready-made-transition-function path"""
+    gs = case.get("ghost_start")
+    if gs is None or case["kind"] == "dfa" or gs in case["starts"] or (case.get("ctor_tf") and not _ghosts(case)):
+        return None
+    return gs
 
 
 def _ghosts(case):
@@ -249,6 +262,9 @@ def build(case):
     gf = case.get("ghost_final")
     if gf is not None and gf not in case["finals"]:
         fa.add_final_state(sval(case, gf))
+    gs = _ghost_start(case)
+    if gs is not None:
+        fa.add_start_state(sval(case, gs))
     for p, a, q in ghosts[:1]:
         fa.add_transition(sval(case, p), Epsilon() if a is None else yval(case, a), sval(case, q))
     for p, a, q in case["trans"]:
@@ -259,6 +275,8 @@ def build(case):
         fa.remove_transition(sval(case, p), Epsilon() if a is None else yval(case, a), sval(case, q))
     if gf is not None and gf not in case["finals"]:
         fa.remove_final_state(sval(case, gf))
+    if gs is not None:
+        fa.remove_start_state(sval(case, gs))
     for s in case.get("extra_symbols", []):
         fa.add_symbol(yval(case, s))
     for s in case.get("extra_states", []):
@@ -338,6 +356,8 @@ def shrink_fa(case):
             yield mk(ghost_trans=case["ghost_trans"][:i] + case["ghost_trans"][i + 1:])
     if case.get("ghost_final") is not None:
         yield mk(ghost_final=None)
+    if case.get("ghost_start") is not None:
+        yield mk(ghost_start=None)
     if case.get("ctor_tf"):
         yield mk(ctor_tf=False)
     if case.get("ctor"):
@@ -387,7 +407,7 @@ def shrink_fa(case):
         yield mk(valmode="str", states=[ren[s_] for s_ in case["states"]],
                  trans=[[ren[p], a, ren[q]] for p, a, q in case["trans"]],
                  starts=[ren[s_] for s_ in case["starts"]], finals=[ren[s_] for s_ in case["finals"]],
-                 ghost_trans=None, ghost_final=None, eps_string_edge=None)
+                 ghost_trans=None, ghost_final=None, ghost_start=None, eps_string_edge=None)
     if case["kind"] == "nfa":
         yield mk(kind="enfa")
     if case["kind"] == "dfa":
